@@ -36,7 +36,7 @@ RULE = (
     "object's value when the operation started and its value when it ended; (c) after reconnect, Logon and closure nothing is lost or duplicated (the message "
     "in flight at kill time may arrive once or twice / once or never), both ends ACTIVE with matching counters, and over the "
     "whole run no two non-PossDup frames of the restarted sender that left the process carry the same MsgSeqNum with different "
-    "bodies; (d) after a graceful restart with nothing in flight no ResendRequest appears. Non-trivial = restart after "
+    "bodies; (d) after a graceful restart with nothing in flight no ResendRequest appears - also when the session was ended by a Logout (sent by either side, read by the other) before the restart. Non-trivial = restart after "
     "application traffic both ways with a gap fill in the history or a kill point inside a send; distinct by (history, point)."
 )
 ASSUMPTIONS = [
@@ -437,6 +437,7 @@ act = st.one_of(
     st.tuples(st.just("reconnect")),
     st.tuples(st.just("reconnect")),
     st.tuples(st.just("graceful")),
+    st.tuples(st.just("logout"), st.sampled_from(["c", "s"])),
     st.tuples(st.just("kill"), st.sampled_from(["send", "deliver", "deliver"]), st.integers(0, 200)),
 )
 WARM = [("deliver", "c"), ("deliver", "s"), ("send", "c"), ("send", "s"), ("deliver", "c"), ("deliver", "s")]
